@@ -214,6 +214,7 @@ func errInfo(err error) *plan.ErrInfo {
 	if err == nil {
 		return nil
 	}
+	lastErr = err
 	msg := err.Error()
 	ei := &plan.ErrInfo{
 		WordLen:  errors.Is(err, bip39.ErrWordLen),
@@ -258,10 +259,19 @@ type kept struct {
 	b []byte
 }
 
+// keptErr is an error value a call returned; its text is read again at the end of a sequence.
+type keptErr struct {
+	i int
+	e error
+}
+
+var lastErr error // the error value of the call that exec just made (nil when none)
+
 type state struct {
 	arena map[int][]byte
 	bufs  map[int][]byte
 	keep  []kept
+	errs  []keptErr
 	// a scripted source installed by "srcset" that stays in place over the following calls
 	persist     *scripted
 	persistPrev io.Reader
@@ -304,6 +314,14 @@ func (st *state) exec(op *plan.Op, shared *scripted) (res plan.Res) {
 	}
 	res.I = op.I
 	res.Env = envTag
+	if !concMode {
+		lastErr = nil
+		defer func() {
+			if lastErr != nil && len(st.errs) < 4096 && op.Fn != "keepdump" {
+				st.errs = append(st.errs, keptErr{i: op.I, e: lastErr})
+			}
+		}()
+	}
 	// decode arguments before the clock starts
 	var ent, full []byte
 	var s, p string
@@ -558,6 +576,22 @@ func (st *state) exec(op *plan.Op, shared *scripted) (res plan.Res) {
 			}
 			for id, b := range st.bufs {
 				res.Info = append(res.Info, "buf"+strconv.Itoa(id)+":"+bufAfter(b))
+			}
+			// error values returned earlier, read again now
+			for _, ke := range st.errs {
+				msg := func() (m string) {
+					defer func() {
+						if r := recover(); r != nil {
+							m = "<panic in Error()>"
+						}
+					}()
+					return ke.e.Error()
+				}()
+				if len(msg) > plan.MsgCap {
+					msg = msg[:plan.MsgCap]
+				}
+				h := sha256.Sum256([]byte(msg))
+				res.Info = append(res.Info, "err"+strconv.Itoa(ke.i)+":"+hex.EncodeToString(h[:]))
 			}
 			res.OutOK = true
 		default:
